@@ -11,8 +11,10 @@ CONSTANTS Depth, MaxDup
 VARIABLES hist, dups
 svars == <<vars, hist, dups>>
 
-\* every order of the public keys
-SimRanks == {r \in [Nodes -> 1..Cardinality(Nodes)] : \A a, b \in Nodes : a # b => r[a] # r[b]}
+\* every order of the public keys (a late node does not hold the last index, so that QUAL has a gap)
+SimRanks == {r \in [Nodes -> 1..Cardinality(Nodes)] :
+               /\ \A a, b \in Nodes : a # b => r[a] # r[b]
+               /\ \A x \in LateSet : r[x] < Cardinality(Nodes)}
 
 Parts == JoinSet \cup RemainSet
 AllOutcome == prop # NoTerms /\ \A n \in Parts : st[n] \in {"Done", "Failed"}
